@@ -166,13 +166,14 @@ def _lines(level, decorated):
     return txt
 
 
-def _case(base_i, q, verb, ansi, n, hv, short, pos, raises, rotate):
+def _case(base_i, q, verb, ansi, n, hv, short, pos, raises, rotate, own=False):
     path, positionals, full_name = BASES[base_i]
     sw = _switch_tokens(q, verb, ansi, n, hv, short)
+    lead = path + (["--yell"] if own and full_name == "greet" else [])      # an option of the command itself may stand before the global switches
     if rotate and sw:
         sw = sw[1:] + sw[:1]                         # another order of the same switches
     pos = min(pos, len(positionals))
-    tokens = path + positionals[:pos] + sw + positionals[pos:]
+    tokens = lead + positionals[:pos] + sw + positionals[pos:]
     # known finding: '-v' is declared with an optional value and swallows the positional that follows it
     i = tokens.index("-v") if "-v" in tokens else -1
     if i >= 0 and i + 1 < len(tokens) and not tokens[i + 1].startswith("-") and kf.excluded("C09-v-swallows-positional", True):
@@ -273,13 +274,14 @@ def no_ansi_tty(base: int, mode: int, pos: int, verb: int, tty_out: bool, tty_er
     return untraced(_no_ansi_tty_case, conc_int(base, 0, 2), conc_int(mode, 0, 2), conc_int(pos, 0, 2), conc_int(verb, 0, 3), conc_bool(tty_out), conc_bool(tty_err))
 
 
-def switches(q: bool, ansi: int, n: bool, hv: int, short: bool, pos: int, raises: bool, rotate: bool) -> bool:
+def switches(q: bool, ansi: int, n: bool, hv: int, short: bool, pos: int, raises: bool, rotate: bool, own: bool) -> bool:
     """
     pre: 0 <= ansi <= 2 and 0 <= hv <= 2 and 0 <= pos <= 2
+    pre: PART["base"] == 0 or not own
     post: _
     """
     return untraced(_case, PART["base"], conc_bool(q), PART["verb"], conc_int(ansi, 0, 2), conc_bool(n), conc_int(hv, 0, 2), 1 if conc_bool(short) else 0,
-                    conc_int(pos, 0, 2), conc_bool(raises), conc_bool(rotate))
+                    conc_int(pos, 0, 2), conc_bool(raises), conc_bool(rotate), conc_bool(own))
 
 
 def _after_dd_case(q, verb, ansi, n, hv, short, raises, vbefore):
